@@ -20,7 +20,7 @@ BASE_FLAGS = ['-std=c++14', '-fno-rtti', '-fno-exceptions', '-DNDEBUG', '-O1', '
               '-include', REPO + '/include/libstdc++14-workaround.h', '-w', '-D_GLIBCXX_EXTERN_TEMPLATE=0',
               '-DLLBUILD_VERIF=1']
 CBMC_FLAGS = ['--unwinding-assertions', '--no-malloc-may-fail', '--slice-formula',
-              '--max-field-sensitivity-array-size', '256', '--drop-unused-functions', '--trace', '--json-ui']
+              '--max-field-sensitivity-array-size', '256', '--drop-unused-functions', '--trace', '--json-ui', '--verbosity', '8']
 
 def log(msg):
     sys.stderr.write(msg + '\n'); sys.stderr.flush()
@@ -53,7 +53,8 @@ def run(cmd, cwd=None, timeout=None, mem_gb=None, env=None, stdout=None):
 def must(cmd, what, cwd=None, timeout=900):
     r = run(cmd, cwd=cwd, timeout=timeout)
     if r['rc'] != 0 or r['timeout']:
-        raise ToolError('%s failed (rc=%s%s): %s\n%s' % (what, r['rc'], ', timeout' if r['timeout'] else '', ' '.join(cmd)[:400], (r['err'] or r['out'])[-1500:]))
+        errl = [l for l in (r['err'] or r['out']).split('\n') if 'error' in l or 'undefined' in l][:4]
+        raise ToolError('%s failed (rc=%s%s): %s || %s' % (what, r['rc'], ', timeout' if r['timeout'] else '', ' | '.join(errl)[:700], ' '.join(cmd)[-300:]))
     return r
 
 def sha(path):
@@ -195,9 +196,14 @@ def classify(r, ob):
     if '.assertion.' in pid: return 'assertion'
     return 'memsafety'
 
+def unwind_of(q):
+    u = q.ob.get('unwind', 8)
+    if isinstance(u, str): u = eval(u, {}, dict(q.params))
+    return int(u)
+
 def run_cbmc(q, extra=()):
     ob = q.ob
-    cmd = ['cbmc', 'q.c', '--function', 'vf_main', '--unwind', str(ob.get('unwind', 8))] + CBMC_FLAGS + list(ob.get('cbmc_flags', [])) + list(extra)
+    cmd = ['cbmc', 'q.c', '--function', 'vf_main', '--unwind', str(unwind_of(q))] + CBMC_FLAGS + list(ob.get('cbmc_flags', [])) + list(extra)
     if ob.get('unwindset'): cmd += ['--unwindset', ob['unwindset']]
     tier_to = ob.get('timeout', 600)
     with open(os.path.join(q.wd, 'cbmc.json'), 'wb') as fo:
@@ -241,13 +247,18 @@ def native_exe(q, asan=False):
                 k2 = k + 1 + mm.end()
                 txt[i] = ln[:k2] + ' sanitize_address' + ln[k2:]
         src = os.path.join(q.wd, 'min.asan.ll'); open(src, 'w').write('\n'.join(txt))
-    cmd = [CLANGXX, '-O1', '-w', '-x', 'ir', src, '-x', 'c', '-DVF_ENTRY=' + q.ob['entry'], os.path.join(ENGINE, 'replay_rt.c')]
-    nat = q.ob.get('native_tus', [])
-    if nat:
-        cmd += ['-x', 'c++', '-std=c++14', '-fno-rtti', '-fno-exceptions', '-DNDEBUG', '-I' + REPO + '/include', '-I' + REPO + '/lib/llvm/Support',
-                '-include', REPO + '/include/libstdc++14-workaround.h'] + [repo_path(t) for t in nat]
-    cmd += ['-x', 'none'] + list(q.ob.get('native_libs', [])) + ['-lpthread', '-o', exe]
-    if asan: cmd.insert(1, '-fsanitize=address')
+    san = ['-fsanitize=address'] if asan else []
+    objs = []
+    must([CLANGXX, '-O1', '-w', '-c', '-x', 'ir', src, '-o', name + '.mod.o'] + san, 'native build (module)', cwd=q.wd); objs.append(name + '.mod.o')
+    must([CLANG, '-O1', '-w', '-c', '-DVF_ENTRY=' + q.ob['entry'], os.path.join(ENGINE, 'replay_rt.c'), '-o', name + '.rt.o'], 'native build (runtime)', cwd=q.wd); objs.append(name + '.rt.o')
+    ntus = list(q.ob.get('native_tus', []))
+    if ntus: ntus.append(os.path.join(ENGINE, 'native_support.cpp'))
+    for i, t in enumerate(ntus):
+        o = '%s.tu%d.o' % (name, i)
+        must([CLANGXX, '-O1', '-w', '-c', '-std=c++14', '-fno-rtti', '-fno-exceptions', '-DNDEBUG', '-I' + REPO + '/include', '-I' + REPO + '/lib/llvm/Support',
+              '-include', REPO + '/include/libstdc++14-workaround.h', repo_path(t), '-o', o], 'native build (' + t + ')', cwd=q.wd)
+        objs.append(o)
+    cmd = [CLANGXX] + san + objs + list(q.ob.get('native_libs', [])) + ['-lpthread', '-o', exe]
     must(cmd, 'native build', cwd=q.wd)
     return exe
 
@@ -283,7 +294,9 @@ def confirm(q, res, vals):
     if kind == 'assertion':
         r = run_native(native_exe(q), valfile)
         m = re.search(r'VF-ASSERT-FAIL: (.*)', r['out'])
-        if m and sanitize_msg(m.group(1).strip()) == sanitize_msg(res['description'].strip()):
+        if m and (sanitize_msg(m.group(1).strip()) == sanitize_msg(res['description'].strip())
+                  or sanitize_msg(m.group(1).strip()) in getattr(q, 'failed_descs', ())):
+            # the native run stops at the first failing assertion; any assertion CBMC also reports as failing counts
             out['confirmed'] = True
         out['detail'] = 'native rc=%s: %s' % (r['rc'], (r['out'].strip().split('\n') or [''])[-1][:200])
         if not out['confirmed']:
@@ -325,7 +338,7 @@ def validate_translation(q, witness_vals, nrandom, seed):
 def do_query(q, tier, seed, validate=True):
     t0 = time.time()
     rec = dict(qid=q.qid, obligation=q.ob['name'], params=q.params, excludes=list(q.excludes), harness=q.ob['harness'], entry=q.ob['entry'],
-               unwind=q.ob.get('unwind', 8), status='inconclusive', reason='', violations=[], witness=False)
+               unwind=unwind_of(q), status='inconclusive', reason='', violations=[], witness=False)
     try:
         b = build_c(q)
         rec['functions_encoded'] = len(b['functions'])
@@ -351,22 +364,30 @@ def do_query(q, tier, seed, validate=True):
             wvals = nondet_values(wit[0].get('trace'))
         else:
             rec['reason'] = 'witness not reachable: the obligation is vacuous'; return rec
-        cands = []
+        cands = []; unknown = []
         for r in fails:
             k = classify(r, q.ob)
             if k == 'witness': continue
             if r.get('status') != 'FAILURE':
-                rec['reason'] = 'property %s has status %s' % (r.get('property'), r.get('status')); return rec
+                unknown.append(r); continue
             if k == 'outside':
                 rec['reason'] = 'bound exceeded: ' + r.get('description', '')[:200]; return rec
             if k == 'unwind' and not q.ob.get('unwind_is_oracle'):
                 rec['reason'] = 'unwinding bound too small: ' + r.get('property', ''); return rec
             cands.append(r)
-        seen_desc = set()
+        if unknown and not cands:
+            # UNKNOWN without any failure: CBMC did not decide the property
+            rec['reason'] = 'property %s has status %s' % (unknown[0].get('property'), unknown[0].get('status')); return rec
+        q.failed_descs = set(sanitize_msg((r.get('description') or '').strip()) for r in cands)
+        cands.sort(key=lambda r: 0 if classify(r, q.ob) != 'assertion' else 1)
+        mem_confirmed = False
         for r in cands:
-            key = (classify(r, q.ob), r.get('description'))
             vals = nondet_values(r.get('trace'))
             cf_ = confirm(q, r, vals)
+            if cf_['kind'] != 'assertion' and cf_['confirmed']: mem_confirmed = True
+            if cf_['kind'] == 'assertion' and not cf_['confirmed'] and mem_confirmed and 'asan:' in cf_['detail']:
+                # downstream effect of the memory-safety violation already confirmed natively
+                rec.setdefault('downstream', []).append(r.get('description')); continue
             v = dict(property=r['property'], description=r.get('description'), kind=cf_['kind'], confirmed=cf_['confirmed'], detail=cf_['detail'],
                      values=[[t, x] for t, x in vals][:400], location=(r.get('sourceLocation') or {}).get('function'))
             rec['violations'].append(v)
